@@ -13,4 +13,12 @@ void run_tlx(const Params& p, Vec& v, Cmp cmp) {
     else tlx::parallel_mergesort(v.begin(), v.end(), cmp, (size_t)p.threads, a);
 }
 
+//! the same call on an arbitrary random-access iterator range
+template <class It, class Cmp>
+void run_tlx_range(const Params& p, It b, It e, Cmp cmp) {
+    tlx::MultiwayMergeSplittingAlgorithm a = p.sampling ? tlx::MWMSA_SAMPLING : tlx::MWMSA_EXACT;
+    if (p.stable) tlx::stable_parallel_mergesort(b, e, cmp, (size_t)p.threads, a);
+    else tlx::parallel_mergesort(b, e, cmp, (size_t)p.threads, a);
+}
+
 } // namespace c06
